@@ -186,7 +186,8 @@ func c02SeveralRounds(c *Ctx) {
 
 func checkC02(c *Ctx) {
 	defer c02SeveralRounds(c)
-	c.Rule = "full key generations for all (n,t), n<=5, under seeded random schedules (answer order per phase, poll splits, lagging nodes), judged by group arithmetic on public values + machine keyrings + prysm; plus the deviating-announcement family: one participant's key announcement rewritten between machine and node (different well-formed polynomial with the same constant term / no polynomial / different key), delivered first, in the middle or last. Fault family keystore-fails: one machine's key store (LevelDB handle) is closed right before the last operation of the ceremony and reopened afterwards; the invariant is judged on every signing-ready node. Family forged: the deviant also announces in everybody else's name (own signature and sender name) with a polynomial of his choosing, before the honest announcements. distinct = distinct (n,t,family,deviant,position) cases"
+	defer c02KeyringCodec(c)
+	c.Rule = "full key generations for all (n,t), n<=5, under seeded random schedules (answer order per phase, poll splits, lagging nodes), judged by group arithmetic on public values + machine keyrings + prysm; plus the deviating-announcement family: one participant's key announcement rewritten between machine and node (different well-formed polynomial with the same constant term / no polynomial / different key), delivered first, in the middle or last. Fault family keystore-fails: one machine's key store (LevelDB handle) is closed right before the last operation of the ceremony and reopened afterwards; the invariant is judged on every signing-ready node. Family forged: the deviant also announces in everybody else's name (own signature and sender name) with a polynomial of his choosing, before the honest announcements. Keyring codec: for t = 1..40 a keyring built with kyber's own arithmetic goes through the machine's store format and the announcement format and must come back with the same commitments, a share on the polynomial, and t shares that combine. distinct = distinct (n,t,family,deviant,position) cases"
 	c.Assumptions = []string{"kyber group arithmetic for public-value checks", "prysm/blst as signature judge", "machines' keyrings read with the harness-known password"}
 	cases := ntCases(5)
 	reps := c.Pick(10, 150)
@@ -448,5 +449,71 @@ func runC02Deviant(c *Ctx, n, t int, family string, dev, pos int, seed uint64, w
 	c.Add("deviating_polynomial_worlds", 1)
 	if pos == 2 && dev == 0 {
 		c.Sample(map[string]interface{}{"case": wit, "signing_ready_nodes": ready})
+	}
+}
+
+// c02KeyringCodec: what a machine stores and what a hot node retains goes through the keyring codec
+// (dkg.BLSKeyring.Bytes / PubPolyBytes and their loaders). For thresholds far beyond the ceremonies played
+// above (t = 1..40; a real ceremony with 40 machines is out of reach of the quick tier) a keyring built
+// with kyber's own polynomial arithmetic must come back unchanged: same number of commitments, same
+// points, a share that still lies on the polynomial, and t shares that still sign.
+func c02KeyringCodec(c *Ctx) {
+	suite := oracle.NewSuite()
+	for t := 1; t <= 40; t++ {
+		n := t + 2
+		pri := share.NewPriPoly(suite, t, nil, suite.RandomStream())
+		pub := pri.Commit(nil)
+		shares := pri.Shares(n)
+		want := oracle.CommitsBytes(pub)
+		wit := map[string]interface{}{"family": "keyring codec", "threshold": t}
+		c.Eval(1)
+		c.Distinct(fmt.Sprintf("keyring-codec|t%d", t))
+		kr := &dkg.BLSKeyring{PubPoly: pub, Share: shares[t%n]}
+		full, err := kr.Bytes()
+		if err != nil {
+			c.Violate("C02/keyring-codec", fmt.Sprintf("t=%d: Bytes: %v", t, err), wit)
+			continue
+		}
+		back, err := dkg.LoadBLSKeyringFromBytes(suite, full)
+		if err != nil {
+			c.Violate("C02/keyring-codec", fmt.Sprintf("t=%d: LoadBLSKeyringFromBytes: %v", t, err), wit)
+			continue
+		}
+		if got := oracle.CommitsBytes(back.PubPoly); !eqCommits(got, want) {
+			c.Violate("C02/machines-hold-different-polynomials", fmt.Sprintf("a keyring with %d commitments comes back from the machine's store format with %d (or other points)", len(want), len(got)), wit)
+		}
+		if back.Share == nil || back.Share.I != kr.Share.I || !back.Share.V.Equal(kr.Share.V) {
+			c.Violate("C02/keyring-codec", fmt.Sprintf("t=%d: the share changes in the store format", t), wit)
+		} else if !suite.Point().Mul(back.Share.V, nil).Equal(back.PubPoly.Eval(back.Share.I).V) {
+			c.Violate("C02/share-not-on-polynomial", fmt.Sprintf("t=%d: after loading, the share does not lie on the loaded polynomial", t), wit)
+		}
+		pbz, err := kr.PubPolyBytes()
+		if err != nil {
+			c.Violate("C02/keyring-codec", fmt.Sprintf("t=%d: PubPolyBytes: %v", t, err), wit)
+			continue
+		}
+		hot, err := dkg.LoadPubPolyBLSKeyringFromBytes(suite, pbz)
+		if err != nil {
+			c.Violate("C02/hot-polynomial-unreadable", fmt.Sprintf("t=%d: %v", t, err), wit)
+			continue
+		}
+		if got := oracle.CommitsBytes(hot.PubPoly); !eqCommits(got, want) {
+			c.Violate("C02/hot-polynomial-differs-from-machines", fmt.Sprintf("the announced polynomial (%d commitments) is read back by a hot node with %d (or other points)", len(want), len(got)), wit)
+			continue
+		}
+		// t shares sign under the polynomial as the hot node reads it
+		msg := []byte("c02-codec-probe")
+		var parts [][]byte
+		for i := 0; i < t; i++ {
+			ps, err := tbls.Sign(suite, shares[i], msg)
+			if err != nil {
+				break
+			}
+			parts = append(parts, ps)
+		}
+		if _, err := tbls.Recover(suite, hot.PubPoly, msg, parts, t, n); err != nil {
+			c.Violate("C02/t-shares-do-not-combine", fmt.Sprintf("t=%d: under the polynomial as read back by the hot node: %v", t, err), wit)
+		}
+		c.Add("keyring_codec_round_trips", 1)
 	}
 }
